@@ -57,25 +57,27 @@ structure EmptyLeaf (s : RS) : Prop where
   oneOf : s.oneOf = []
   anyOf : s.anyOf = []
   allOf : s.allOf = []
+  minProps : s.minProps = 0
+  maxProps : s.maxProps = none
 
 theorem emptyLeaf_of (s : RS) (h : isEmptyLeaf s = true) : EmptyLeaf s := by
   unfold isEmptyLeaf at h
   simp only [Bool.and_eq_true, Bool.not_eq_true', Option.isNone_iff_eq_none, List.isEmpty_iff,
     beq_iff_eq, bne_iff_ne, ne_eq] at h
-  obtain ⟨⟨⟨⟨⟨⟨⟨⟨⟨⟨⟨⟨⟨h1, h2⟩, _⟩, _⟩, h5⟩, h6⟩, h7⟩, h8⟩, h9⟩, h10⟩, h11⟩, h12⟩, h13⟩, h14⟩ := h
-  exact ⟨h1, h2, h5, h6, h7, h8, h9, h10, h11, h12, h13, h14⟩
+  obtain ⟨⟨⟨⟨⟨⟨⟨⟨⟨⟨⟨⟨⟨⟨⟨h1, h2⟩, _⟩, _⟩, h5⟩, h6⟩, h7⟩, h8⟩, h9⟩, h10⟩, h11⟩, h12⟩, h13⟩, h14⟩, h15⟩, h16⟩ := h
+  exact ⟨h1, h2, h5, h6, h7, h8, h9, h10, h11, h12, h13, h14, h15, h16⟩
 
 /-! ### induction over a schema and its composition members -/
 
 theorem rs_induct (P : RS → Prop)
-    (h : ∀ t n r w ml mx props req a items nt oneOf anyOf allOf,
+    (h : ∀ t n r w ml mx props req a items nt oneOf anyOf allOf dflt,
       (∀ x, nt = some x → P x) → (∀ x ∈ oneOf, P x) → (∀ x ∈ anyOf, P x) → (∀ x ∈ allOf, P x) →
-      P (RS.mk t n r w ml mx props req a items nt oneOf anyOf allOf)) : ∀ s, P s := by
+      P (RS.mk t n r w ml mx props req a items nt oneOf anyOf allOf dflt)) : ∀ s, P s := by
   have key := cdepth.mutual_induct (motive_1 := P) (motive_2 := fun l => ∀ x ∈ l, P x)
     (motive_3 := fun o => ∀ x, o = some x → P x)
   refine (key ?_ ?_ ?_ ?_ ?_).1
-  · intro t n r w ml mx props req a items nt oneOf anyOf allOf h1 h2 h3 h4
-    exact h t n r w ml mx props req a items nt oneOf anyOf allOf h1 h2 h3 h4
+  · intro t n r w ml mx props req a items nt oneOf anyOf allOf dflt h1 h2 h3 h4
+    exact h t n r w ml mx props req a items nt oneOf anyOf allOf dflt h1 h2 h3 h4
   · intro x hx; cases hx
   · intro n hn x hx; cases hx; exact hn
   · intro x hx; cases hx
@@ -141,7 +143,7 @@ theorem satAllB_spec (l : List RS) (h : ∀ x ∈ l, (satCB isNull own x = true 
 
 theorem satCB_iff (h : ∀ s, own s = true ↔ Own s) : ∀ s, satCB isNull own s = true ↔ SatC isNull Own s := by
   apply rs_induct
-  intro t n r w ml mx props req a items nt oneOf anyOf allOf hnt h1 h2 h3
+  intro t n r w ml mx props req a items nt oneOf anyOf allOf dflt hnt h1 h2 h3
   have hnot : satNotB isNull own nt = true ↔ SatNot isNull Own nt := by
     cases nt with
     | none => simp [satNotB, SatNot]
@@ -191,7 +193,7 @@ theorem comp_eq_satCB (isNull : Bool) (own own' : RS → Bool)
     (hN : isNull = true → ∀ s, own s = s.nullable) :
     ∀ s, comp isNull own s = satCB isNull own' s := by
   apply rs_induct
-  intro t n r w ml mx props req a items nt oneOf anyOf allOf hnt h1 h2 h3
+  intro t n r w ml mx props req a items nt oneOf anyOf allOf dflt hnt h1 h2 h3
   have hnot : compNot isNull own nt = satNotB isNull own' nt := by
     cases nt with
     | none => rfl
@@ -214,13 +216,13 @@ theorem comp_eq_satCB (isNull : Bool) (own own' : RS → Bool)
   rw [hnot, c1.1, c2.2.1, c3.2.2]
   cases hnull : isNull with
   | true =>
-    have hNs := hN hnull (RS.mk t n r w ml mx props req a items nt oneOf anyOf allOf)
+    have hNs := hN hnull (RS.mk t n r w ml mx props req a items nt oneOf anyOf allOf dflt)
     simp only [RS.nullable] at hNs
     cases hn : n with
     | true => simp
     | false =>
       simp only [Bool.true_and, Bool.false_eq_true, if_false, if_true, Bool.false_or]
-      cases he : isEmptyLeaf (RS.mk t false r w ml mx props req a items nt oneOf anyOf allOf) with
+      cases he : isEmptyLeaf (RS.mk t false r w ml mx props req a items nt oneOf anyOf allOf dflt) with
       | true =>
         have e := emptyLeaf_of _ he
         have e1 := e.oneOf; have e2 := e.anyOf; have e3 := e.allOf
@@ -237,7 +239,7 @@ theorem comp_eq_satCB (isNull : Bool) (own own' : RS → Bool)
   | false =>
     simp only [Bool.false_and, Bool.false_eq_true, if_false, Bool.not_false]
     rw [← hown hnull]
-    cases he : isEmptyLeaf (RS.mk t n r w ml mx props req a items nt oneOf anyOf allOf) with
+    cases he : isEmptyLeaf (RS.mk t n r w ml mx props req a items nt oneOf anyOf allOf dflt) with
     | true =>
       have e := emptyLeaf_of _ he
       have e0 := e.nt; have e1 := e.oneOf; have e2 := e.anyOf; have e3 := e.allOf
@@ -306,6 +308,13 @@ theorem roLoopOK_iff (exro : Bool) (s : RS) (ks : List Str) :
       | true => simp
       | false => right; simpa using hs hx k hro
 
+theorem countOK_iff (s : RS) (n : Nat) :
+    countOK s n = true ↔ s.minProps ≤ n ∧ ∀ m, s.maxProps = some m → n ≤ m := by
+  unfold countOK
+  cases s.maxProps with
+  | none => simp
+  | some m => simp
+
 theorem requiredOK_iff (s : RS) (ks : List Str) :
     requiredOK s ks = true ↔ ∀ k ∈ s.required, k ∈ ks ∨ isRO (lookup k s.props) = true := by
   unfold requiredOK
@@ -329,7 +338,7 @@ theorem own_of_emptyLeaf (s : RS) (h : isEmptyLeaf s = true) :
       intro kf _
       simp only [e.props, lookup, bne_iff_ne, ne_eq]
       exact e.addl
-    simp [ownObj, e.ty, e.props, e.required, permits, roLoopOK, keys, requiredOK, hf]
+    simp [ownObj, e.ty, e.props, e.required, permits, roLoopOK, keys, requiredOK, hf, countOK, e.minProps, e.maxProps]
 
 /-! ### writeOnly plays no role -/
 
@@ -369,6 +378,7 @@ theorem clearWO_addl (s : RS) : s.clearWO.addl = s.addl := by cases s; rfl
 theorem clearWO_props (s : RS) : s.clearWO.props = clearWOProps s.props := by cases s; rfl
 theorem clearWO_items (s : RS) : s.clearWO.items = clearWOOpt s.items := by cases s; rfl
 theorem clearWO_wo (s : RS) : s.clearWO.wo = false := by cases s; rfl
+theorem clearWO_countOK (s : RS) (n : Nat) : countOK s.clearWO n = countOK s n := by cases s; rfl
 
 theorem all_congr_mem {α : Type} (l : List α) (f g : α → Bool) (h : ∀ x ∈ l, f x = g x) : l.all f = l.all g := by
   induction l with
@@ -400,14 +410,14 @@ theorem ownObj_clearWO (exro : Bool) (fs : List (Str × (RS → Bool))) (s : RS)
     cases lookup kf.1 s.props with
     | none => rfl
     | some p => simp only [Option.map_some]; exact ih kf hkf p
-  rw [clearWO_ty, h1, h2, h3]
+  rw [clearWO_ty, h1, h2, h3, clearWO_countOK]
 
 /-- the clause-by-clause twin does not see `writeOnly` flags, at any depth of the composition keywords,
 as long as the own-keyword verdict does not -/
 theorem satCB_clearWO (isNull : Bool) (own : RS → Bool) (h : ∀ s, own s.clearWO = own s) :
     ∀ s, satCB isNull own s.clearWO = satCB isNull own s := by
   apply rs_induct
-  intro t n r w ml mx props req a items nt oneOf anyOf allOf hnt h1 h2 h3
+  intro t n r w ml mx props req a items nt oneOf anyOf allOf dflt hnt h1 h2 h3
   have hl : ∀ l : List RS, (∀ x ∈ l, satCB isNull own x.clearWO = satCB isNull own x) →
       satCountB isNull own (clearWOList l) = satCountB isNull own l ∧
       satAnyB isNull own (clearWOList l) = satAnyB isNull own l ∧
@@ -427,7 +437,7 @@ theorem satCB_clearWO (isNull : Bool) (own : RS → Bool) (h : ∀ s, own s.clea
   have c1 := hl oneOf h1
   have c2 := hl anyOf h2
   have c3 := hl allOf h3
-  have hown := h (RS.mk t n r w ml mx props req a items nt oneOf anyOf allOf)
+  have hown := h (RS.mk t n r w ml mx props req a items nt oneOf anyOf allOf dflt)
   unfold RS.clearWO at hown ⊢
   unfold satCB
   rw [hnot, c1.1, c2.2.1, c3.2.2.1, c1.2.2.2, c2.2.2.2, c3.2.2.2, hown]
@@ -704,7 +714,7 @@ theorem noComp_of_declOK (p : RS) (h : declOK p = true) : hasCompP p = false := 
 theorem decodePropC_of_noComp (fields : List (Str × List Str)) (k : Str) (e : Option Enc) (p : RS)
     (h : hasCompP p = false) : decodePropC fields k e p = decodeFormProp fields k p e := by
   cases p with
-  | mk ty n r w ml mx props req a items nt oneOf anyOf allOf =>
+  | mk ty n r w ml mx props req a items nt oneOf anyOf allOf dflt =>
     unfold hasCompP at h
     simp only [RS.allOf, RS.anyOf, RS.oneOf, RS.nt, Bool.not_eq_false', Bool.and_eq_true, List.isEmpty_iff,
       Option.isNone_iff_eq_none] at h
@@ -719,7 +729,7 @@ theorem declOKC_cases (p : RS) (h : declOKC p = true) : hasCompP p = true ∨ pr
   | false =>
     right
     cases p with
-    | mk ty n r w ml mx props req a items nt oneOf anyOf allOf =>
+    | mk ty n r w ml mx props req a items nt oneOf anyOf allOf dflt =>
       unfold declOKC at h
       unfold hasCompP at hc
       simp only [RS.allOf, RS.anyOf, RS.oneOf, RS.nt, Bool.not_eq_false'] at hc
@@ -781,5 +791,172 @@ theorem propPre_of_formPre (props : List (Str × RS)) (h : formPre props = .ok) 
     rcases List.mem_cons.mp hkp with rfl | hkp
     · exact hp
     · exact ih hr kp hkp
+
+/-! ### multipart: the decoder's two loops against the declarative reading -/
+
+theorem decodePart_spec (reg : List (Str × DecK)) (p : Part) :
+    (∀ v, decodePart reg p = .val v → specPart reg p = some v) ∧
+    (decodePart reg p = .err → specPart reg p = none) ∧
+    (decodePart reg p = .unmodelled → specPart reg p = none) ∧ decodePart reg p ≠ .panic := by
+  unfold decodePart specPart
+  simp only
+  cases lookup (base (if p.ct = [] then "text/plain".toList else p.ct)) reg with
+  | none => simp
+  | some k =>
+    cases k with
+    | json => cases p.json <;> simp [decodeSimple]
+    | plain => simp [decodeSimple]
+    | file => simp [decodeSimple]
+    | yaml => cases p.yaml <;> simp [decodeSimple]
+    | csv => cases p.csv <;> simp [decodeSimple]
+    | urlencoded => simp [decodeSimple]
+    | multipart => simp [decodeSimple]
+
+/-- first loop: what it collects, and when it fails -/
+theorem collectParts_spec (reg : List (Str × DecK)) (s : RS) (ps : List Part) :
+    (∀ vals, collectParts reg s ps = .inl (some vals) →
+      ps.any (fun p => partDecl s p.name == .undefined) = false ∧
+      (ps.filter fun p => partDecl s p.name == .found).any (fun p => (specPart reg p).isNone) = false ∧
+      vals = (ps.filter fun p => partDecl s p.name == .found).filterMap (fun p => (specPart reg p).map fun v => (p.name, v))) ∧
+    (collectParts reg s ps = .inl none →
+      ps.any (fun p => partDecl s p.name == .undefined) = true ∨
+      (ps.filter fun p => partDecl s p.name == .found).any (fun p => (specPart reg p).isNone) = true) ∧
+    (collectParts reg s ps = .inr () →
+      ps.any (fun p => partDecl s p.name == .undefined) = true ∨
+      (ps.filter fun p => partDecl s p.name == .found).any (fun p => (specPart reg p).isNone) = true) := by
+  induction ps with
+  | nil => simp [collectParts]
+  | cons p r ih =>
+    obtain ⟨ih1, ih2, ih3⟩ := ih
+    unfold collectParts
+    cases hd : partDecl s p.name with
+    | skip =>
+      simp only [List.any_cons, hd, List.filter_cons]
+      exact ⟨fun vals h => by simpa using ih1 vals h, fun h => by simpa using ih2 h, fun h => by simpa using ih3 h⟩
+    | undefined => simp [hd]
+    | found =>
+      obtain ⟨d1, d2, d3, d4⟩ := decodePart_spec reg p
+      have hfound : (partDecl s p.name == PartDecl.found) = true := by simp [hd]
+      have hundef : (partDecl s p.name == PartDecl.undefined) = false := by simp [hd]
+      have eAny : ((p :: r).any fun p => partDecl s p.name == PartDecl.undefined) =
+          r.any fun p => partDecl s p.name == PartDecl.undefined := by
+        simp only [List.any_cons, hundef, Bool.false_or]
+      have eFil : ((p :: r).filter fun p => partDecl s p.name == PartDecl.found) =
+          p :: r.filter fun p => partDecl s p.name == PartDecl.found := by
+        simp only [List.filter_cons, hfound, if_true]
+      rw [eAny, eFil]
+      have eAny2 : ∀ l : List Part, ((p :: l).any fun p => (specPart reg p).isNone) =
+          ((specPart reg p).isNone || l.any fun p => (specPart reg p).isNone) := fun l => by simp only [List.any_cons]
+      cases hp : decodePart reg p with
+      | err =>
+        have hn := d2 hp
+        dsimp only
+        refine ⟨(fun vals h => by cases h), (fun _ => Or.inr ?_), (fun h => by cases h)⟩
+        rw [eAny2, hn]; rfl
+      | unmodelled =>
+        have hn := d3 hp
+        dsimp only
+        refine ⟨(fun vals h => by cases h), (fun h => by cases h), (fun _ => Or.inr ?_)⟩
+        rw [eAny2, hn]; rfl
+      | panic => exact absurd hp d4
+      | val v =>
+        have hv := d1 v hp
+        have eFM : ∀ l : List Part, (p :: l).filterMap (fun p => (specPart reg p).map fun v => (p.name, v)) =
+            (p.name, v) :: l.filterMap (fun p => (specPart reg p).map fun v => (p.name, v)) := by
+          intro l; simp only [List.filterMap_cons, hv, Option.map_some]
+        have eA : ∀ l : List Part, ((p :: l).any fun p => (specPart reg p).isNone) = l.any fun p => (specPart reg p).isNone := by
+          intro l; rw [eAny2, hv]; rfl
+        rw [eA, eFM]
+        dsimp only
+        cases hr : collectParts reg s r with
+        | inl o =>
+          cases o with
+          | none =>
+            dsimp only
+            exact ⟨(fun vals h => by cases h), (fun _ => ih2 hr), (fun h => by cases h)⟩
+          | some l =>
+            dsimp only
+            refine ⟨(fun vals h => ?_), (fun h => by cases h), (fun h => by cases h)⟩
+            obtain ⟨a1, a2, a3⟩ := ih1 l hr
+            have h' : (p.name, v) :: l = vals := by
+              have := h; simp only [Sum.inl.injEq, Option.some.injEq] at this; exact this
+            exact ⟨a1, a2, by rw [← h', a3]⟩
+        | inr u =>
+          dsimp only
+          exact ⟨(fun vals h => by cases h), (fun h => by cases h), (fun _ => ih3 (by cases u; exact hr))⟩
+
+theorem assemble_eq_filterMap (vals : List (Str × V)) (props : List (Str × RS)) :
+    assemble vals props = props.filterMap fun kp =>
+      match valuesOf kp.1 vals with
+      | [] => none
+      | v :: vs => some (kp.1, if tyIs kp.2.ty .array then .arr (v :: vs) else v) := by
+  induction props with
+  | nil => rfl
+  | cons e r ih =>
+    obtain ⟨k, p⟩ := e
+    unfold assemble
+    simp only [List.filterMap_cons]
+    cases valuesOf k vals with
+    | nil => simp only; exact ih
+    | cons v vs => simp only; rw [ih]
+
+theorem valuesOf_collected (reg : List (Str × DecK)) (k : Str) (used : List Part) :
+    valuesOf k (used.filterMap fun p => (specPart reg p).map fun v => (p.name, v)) =
+      (used.filter fun p => p.name = k).filterMap (specPart reg) := by
+  induction used with
+  | nil => rfl
+  | cons p r ih =>
+    unfold valuesOf at ih ⊢
+    simp only [List.filterMap_cons, List.filter_cons]
+    cases hs : specPart reg p with
+    | none =>
+      simp only [Option.map_none]
+      by_cases hk : p.name = k
+      · simp only [hk, decide_true, if_true, List.filterMap_cons, hs]; simpa [hk] using ih
+      · simp only [hk, decide_false, Bool.false_eq_true, if_false]; exact ih
+    | some v =>
+      simp only [Option.map_some, List.filter_cons]
+      by_cases hk : p.name = k
+      · simp only [hk, decide_true, if_true, List.map_cons, List.filterMap_cons, hs]
+        rw [← hk] at ih ⊢
+        simpa using ih
+      · simp only [hk, decide_false, Bool.false_eq_true, if_false]; exact ih
+
+theorem filterMap_congr_mem {α β : Type} (l : List α) (f g : α → Option β) (h : ∀ x ∈ l, f x = g x) :
+    l.filterMap f = l.filterMap g := by
+  induction l with
+  | nil => rfl
+  | cons x r ih =>
+    simp only [List.filterMap_cons]
+    rw [h x (by simp), ih (fun y hy => h y (by simp [hy]))]
+
+/-- **the multipart decoder builds the object the parts encode** (and fails exactly when they encode none);
+`unmodelled` (a part that needs a nested form decoder) only where the declarative reading has no value either -/
+theorem decodeMultipart_spec (reg : List (Str × DecK)) (s : RS) (ps : List Part) (h : tyIs s.ty .object = true) :
+    (∀ v, decodeMultipart reg s (some ps) = .val v → specMultipart reg s ps = some v) ∧
+    (decodeMultipart reg s (some ps) = .err → specMultipart reg s ps = none) ∧
+    (decodeMultipart reg s (some ps) = .unmodelled → specMultipart reg s ps = none) ∧
+    decodeMultipart reg s (some ps) ≠ .panic := by
+  obtain ⟨c1, c2, c3⟩ := collectParts_spec reg s ps
+  unfold decodeMultipart specMultipart
+  simp only [h, Bool.not_true, Bool.false_eq_true, if_false]
+  cases hc : collectParts reg s ps with
+  | inl o =>
+    cases o with
+    | none =>
+      rcases c2 hc with h' | h' <;> simp [h']
+    | some vals =>
+      obtain ⟨a1, a2, a3⟩ := c1 vals hc
+      simp only [a1, a2, Bool.false_eq_true, if_false, Dec.val.injEq, reduceCtorEq, false_implies, ne_eq,
+        not_false_eq_true, and_true]
+      intro v hv
+      rw [← hv, assemble_eq_filterMap, a3]
+      congr 2
+      apply filterMap_congr_mem
+      intro kp _
+      rw [valuesOf_collected]
+      rfl
+  | inr u =>
+    rcases c3 (by cases u; exact hc) with h' | h' <;> simp [h']
 
 end KinModel.Body
